@@ -134,9 +134,14 @@ def wrap(item, depth, wrapper, rng, mode):
     return item
 
 
-def mk_case(doc, args, entry, env, phs):
-    return {"doc": doc, "args": args, "entry": entry, "env": env, "phs": phs,
-            "real": sorted([k, v] for k, v in REAL.items())}
+STD_REAL = sorted([k, v] for k, v in REAL.items())
+
+
+def mk_case(doc, args, entry, env, phs, explicit=False):
+    c = {"doc": doc, "args": args, "entry": entry, "env": env, "phs": phs}
+    if explicit:
+        c["real"] = STD_REAL      # carried explicitly: checked against os.path.realpath and against the Coq constant
+    return c
 
 
 def random_doc(rng, mode=None):
@@ -220,7 +225,8 @@ def rand_args(rng):
 
 def gen(tier, rng):
     quick = tier == "quick"
-    out = []
+    out = [mk_case({"transformations": [{"type": "wildcard_placeholders"}]}, {"ext": False, "tv": False, "paths": None},
+                   "dict", {"ext": None, "tv": None}, ["a"], explicit=True)]
     envs_ext = [{"ext": e, "tv": None} for e in ENV4]
     envs_tv = [{"ext": None, "tv": e} for e in ENV4]
     # ---- A: external-source item x nesting depth x smuggled keys x caller opt-in x environment ----
@@ -449,12 +455,15 @@ def to_coq(case, r):
     tl = [c_effect(e, urls) for e in r["trace"] if e[0] == "load"]
     tc = [c_effect(e, urls) for e in r["trace"] if e[0] == "conv"]
     conv = c_class(r["conv"])
-    real = clist(f"({S(k)}, {strs(v)})" for k, v in case["real"])
+    if "real" in case:
+        real, loadable = clist(f"({S(k)}, {strs(v)})" for k, v in case["real"]), strs(LOADABLE)
+    else:
+        real, loadable = "std_real", "std_loadable"
     fields = [
         f"c_env_ext := {copt(S(case['env']['ext']) if case['env']['ext'] is not None else None)}",
         f"c_env_tv := {copt(S(case['env']['tv']) if case['env']['tv'] is not None else None)}",
         f"c_real := {real}",
-        f"c_loadable := {strs(LOADABLE)}",
+        f"c_loadable := {loadable}",
         f"c_fetch_ok := {clist(fetch_ok_sources(doc))}",
         f"c_doc := {yv(doc)}",
         f"c_args := {c_args(case['args'])}",
